@@ -15,10 +15,15 @@
 #include <stdint.h>
 #include <unistd.h>
 #include <sys/wait.h>
+#include <setjmp.h>
 #include <gmp.h>
 #include <intbig.h>
 #include <quaternion.h>
 #include "internal.h"
+#ifndef DRV_NO_KLPT
+#include <quaternion_data.h>
+#include <klpt.h>
+#endif
 
 int two_adic_valuation(int n);
 int ibz_cornacchia_special_prime(ibz_t *x, ibz_t *y, const ibz_t *n, const ibz_t *p, const int exp_adjust);
@@ -27,11 +32,17 @@ int ibz_cornacchia_special_prime(ibz_t *x, ibz_t *y, const ibz_t *n, const ibz_t
 static unsigned char *g_stream = NULL;
 static size_t g_len = 0, g_pos = 0;
 
+static int g_jump_on_exhaust = 0;
+static jmp_buf g_jmp;
+
 int
 randombytes(unsigned char *x, unsigned long long xlen)
 {
-    if (g_pos + xlen > g_len)
+    if (g_pos + xlen > g_len) {
+        if (g_jump_on_exhaust)
+            longjmp(g_jmp, 1); /* callers that ignore the return value (represent_integer): stop the experiment */
         return 1;
+    }
     memcpy(x, g_stream + g_pos, xlen);
     g_pos += xlen;
     return 0;
@@ -72,7 +83,7 @@ set_stream(const char *s)
 }
 
 /* ---------------------------------------------------------------- helpers */
-#define MAXTOK 64
+#define MAXTOK 512
 static char *tok[MAXTOK];
 static int ntok;
 
@@ -155,6 +166,9 @@ do_op(void)
     } else if (!strcmp(op, "tav") && ntok == 2) {
         geti(&a, tok[1]);
         printf("%x", (unsigned)two_adic_valuation(ibz_get(&a)));
+    } else if (!strcmp(op, "twoadic") && ntok == 2) {
+        geti(&a, tok[1]);
+        printf("%x", (unsigned)ibz_two_adic(&a));
     } else if (!strcmp(op, "bitsize") && ntok == 2) {
         geti(&a, tok[1]);
         printf("%x", (unsigned)ibz_bitsize(&a));
@@ -267,6 +281,62 @@ do_op(void)
         int ok = ibz_4x4_right_ker_mod_power_of_2(&k, &m, e);
         if (ok) { printf("1"); for (int i = 0; i < 4; i++) { printf(" "); puti(&k[i]); } } else printf("0");
         ibz_mat_4x4_finalize(&m); ibz_vec_4_finalize(&k);
+#ifndef DRV_NO_KLPT
+    } else if (!strcmp(op, "repint") && ntok == 6) {
+        /* repint <non_diag> <trials (informative)> <p (informative)> <n> <stream>: the real function at this level */
+        quat_alg_elem_t gam;
+        quat_alg_elem_init(&gam);
+        geti(&a, tok[4]);
+        set_stream(tok[5]);
+        int nd = (int)strtol(tok[1], NULL, 16);
+        g_jump_on_exhaust = 1;
+        if (setjmp(g_jmp) == 0) {
+            int found = nd ? represent_integer_non_diag(&gam, &a, &QUATALG_PINFTY) : represent_integer(&gam, &a, &QUATALG_PINFTY);
+            g_jump_on_exhaust = 0;
+            if (found) {
+                printf("1 "); puti(&a);
+                for (int i = 0; i < 4; i++) { printf(" "); puti(&gam.coord[i]); }
+                printf(" "); puti(&gam.denom); printf(" %zx", g_pos);
+            } else printf("0");
+        } else {
+            g_jump_on_exhaust = 0;
+            printf("ub");
+        }
+        quat_alg_elem_finalize(&gam);
+#endif
+    } else if ((!strcmp(op, "howell") || !strcmp(op, "kermod")) && ntok >= 4) {
+        int rows = (int)strtol(tok[1], NULL, 16), cols = (int)strtol(tok[2], NULL, 16);
+        if (cols < 1 || cols > rows || ntok != 4 + rows * cols) {
+            printf("bad-op");
+        } else {
+            geti(&a, tok[3]);
+            ibz_t mat[rows][cols];
+            ibz_mat_init(rows, cols, mat);
+            for (int i = 0; i < rows * cols; i++)
+                geti(&mat[i / cols][i % cols], tok[4 + i]);
+            if (!strcmp(op, "howell")) {
+                ibz_t how[rows][rows + 1], tr[rows + 1][rows + 1];
+                ibz_mat_init(rows, rows + 1, how);
+                ibz_mat_init(rows + 1, rows + 1, tr);
+                int z = ibz_mat_howell(rows, cols, how, tr, mat, &a);
+                printf("%x", (unsigned)z);
+                for (int i = 0; i < rows; i++)
+                    for (int j = 0; j < rows + 1; j++) { printf(" "); puti(&how[i][j]); }
+                printf(" |");
+                for (int i = 0; i < rows + 1; i++)
+                    for (int j = 0; j < rows + 1; j++) { printf(" "); puti(&tr[i][j]); }
+                ibz_mat_finalize(rows, rows + 1, how);
+                ibz_mat_finalize(rows + 1, rows + 1, tr);
+            } else {
+                ibz_t kr[cols][cols];
+                ibz_mat_init(cols, cols, kr);
+                ibz_mat_right_ker_mod(rows, cols, kr, mat, &a);
+                for (int i = 0; i < cols; i++)
+                    for (int j = 0; j < cols; j++) { if (i + j) printf(" "); puti(&kr[i][j]); }
+                ibz_mat_finalize(cols, cols, kr);
+            }
+            ibz_mat_finalize(rows, cols, mat);
+        }
     } else {
         printf("bad-op");
     }
